@@ -205,6 +205,7 @@ func (m *Machine) visitInstr(fr *frame, instr ssa.Instruction) continuation {
 		fr.runDefers()
 
 	case *ssa.Panic:
+		m.lastPanicStack = m.where(fr)
 		panic(targetPanic{fr.get(instr.X)})
 
 	case *ssa.Send:
@@ -640,9 +641,13 @@ func (m *Machine) callSSA(caller *frame, site ssa.Instruction, fn *ssa.Function,
 	for i, fv := range fn.FreeVars {
 		fr.env[fi.regs[fv]] = env[i]
 	}
+	th := m.cur
+	th.top = fr
 	for fr.block != nil {
 		m.runFrame(fr)
+		m.cur.top = fr
 	}
+	th.top = caller
 	return fr.result
 }
 
